@@ -1,10 +1,12 @@
 (** C15 — BCJ and delta filters are exact inverses, size-preserving, stable.
     Proved here: delta (all distances); ARM, PowerPC, SPARC, ARM64 (all data,
     all 4-aligned offsets) and ARM-Thumb (all data, all 2-aligned offsets)
-    round trips; length preservation.  NOT proved (explored and tied by
-    correspondence only; see evidence assumptions): round trips of x86,
-    IA-64, RISC-V; the simple_coder buffering protocol. *)
-From XZ Require Import Base Bcj BcjInst BcjProofs BcjProofs2 BcjProofs3.
+    round trips; IA-64 (all data, all 16-aligned offsets, ANY branch table -
+    in particular the one regenerated from ia64.c); length preservation.
+    NOT proved (explored and tied by correspondence only; see evidence
+    assumptions): round trips of x86 and RISC-V; the simple_coder
+    buffering protocol. *)
+From XZ Require Import Base Bcj BcjInst BcjProofs BcjProofs2 BcjProofs3 BcjProofs4.
 Local Open Scope N_scope.
 
 Theorem delta_decode_encode : forall dist l, bytes_ok l -> delta_decode dist (delta_encode dist l) = l.
@@ -75,3 +77,18 @@ Proof. split; [unfold aligned2, w32; lia|vm_compute; discriminate]. Qed.
 Example arm64_changes_something :
   aligned4 (w32 4096) /\ fst (arm64_code true 4096 [1; 0; 0; 148; 7; 7]) <> [1; 0; 0; 148; 7; 7].
 Proof. split; [unfold aligned4, w32; lia|vm_compute; discriminate]. Qed.
+
+(** IA-64: 16-byte bundles, up to three 41-bit slots selected by the template through the branch table *)
+Theorem ia64_decode_encode : forall start l, aligned16 (w32 start) -> bytes_ok l ->
+  fst (ia64_code_g false start (fst (ia64_code_g true start l))) = l.
+Proof. intros start l. unfold ia64_code_g. apply ia64_roundtrip. Qed.
+Print Assumptions ia64_decode_encode.
+
+Theorem ia64_preserves_length : forall enc start l, bytes_ok l -> length (fst (ia64_code_g enc start l)) = length l.
+Proof. intros enc start l. unfold ia64_code_g. apply ia64_length. Qed.
+Print Assumptions ia64_preserves_length.
+
+Example ia64_changes_something :
+  aligned16 (w32 32) /\ fst (ia64_code_g true 32 [16; 0; 0; 0; 0; 0; 0; 0; 0; 0; 0; 0; 0; 0; 0; 80])
+                        <> [16; 0; 0; 0; 0; 0; 0; 0; 0; 0; 0; 0; 0; 0; 0; 80].
+Proof. split; [unfold aligned16, w32; lia|vm_compute; discriminate]. Qed.
